@@ -150,6 +150,7 @@ type Seq struct {
 	lnInMsat  uint64
 	hugeIn    bool // an invoice beyond 2^40 sat was settled: 64-bit ledger arithmetic no longer applies
 	opIndex   int
+	conc      *Conc    // non-nil while operations run as scheduled threads
 	log       []string // op lines so far (replay)
 	lastLnCall int
 }
@@ -291,6 +292,9 @@ type opResult struct {
 }
 
 func (s *Seq) runOp(name string, line Sx, script []string, f func() Sx) opResult {
+	if s.conc != nil {
+		return s.runOpConc(name, line, f)
+	}
 	s.opIndex++
 	s.log = append(s.log, Render(line))
 	s.env.DB.ResetTrace()
@@ -347,6 +351,50 @@ func (s *Seq) runOp(name string, line Sx, script []string, f func() Sx) opResult
 		if model != impl {
 			s.c.Disagree(s.props, Render(line), impl, model, s.replay())
 		}
+	}
+	return res
+}
+
+// runOpConc: the operation runs inside a scheduled thread: its calls stop at the gate, the model is stepped by the
+// scheduler (conc.go), the outcome is compared when the thread finishes.
+func (s *Seq) runOpConc(name string, line Sx, f func() Sx) opResult {
+	t := s.conc.cur
+	s.opIndex++
+	t.name, t.line = name, line
+	s.env.LN.mu.Lock()
+	lnStart := len(s.env.LN.Calls)
+	s.env.LN.mu.Unlock()
+	var res opResult
+	s.env.Gate.register(t.gt)
+	func() {
+		defer func() {
+			if r := recover(); r != nil {
+				res.panicv = r
+				res.out = L(A("panic"))
+			}
+		}()
+		res.out = f()
+	}()
+	s.env.Gate.unregister()
+	t.out = res.out
+	s.env.LN.mu.Lock()
+	for _, c := range s.env.LN.Calls[lnStart:] {
+		if c.Thread == t.id {
+			res.ln = append(res.ln, c)
+		}
+	}
+	s.env.LN.mu.Unlock()
+	s.c.Hist("op", "conc-"+name)
+	kind := Render(res.out)
+	if len(kind) > 48 {
+		kind = kind[:48]
+	}
+	if isOk(res.out) {
+		kind = "ok"
+	}
+	s.c.Hist("outcome", "conc-"+name+" "+kind)
+	if res.panicv != nil {
+		s.c.MonitorFail("C06", "C06/panic/"+name+"/"+panicSig(res.panicv), fmt.Sprintf("%s panicked: %v", name, res.panicv), s.replay())
 	}
 	return res
 }
@@ -571,6 +619,9 @@ func unitAtom(u string) string {
 
 // checkNoChange: C06 monitor — a refused request leaves the observable state as it was.
 func (s *Seq) checkNoChange(op string, before snapshot, allowPaid map[string]bool) {
+	if s.conc != nil {
+		return // other threads run in between
+	}
 	after := s.snap()
 	if d := diffSnap(before, after, allowPaid); d != "" {
 		s.c.MonitorFail("C06", "C06/rejected-changed/"+op+"/"+strings.SplitN(d, "[", 2)[0], "rejected "+op+" changed state: "+d, s.replay())
@@ -741,9 +792,8 @@ func (s *Seq) OpMint(q *HMintQ, outs []ReqOut, sigMode int) cashu.BlindedSignatu
 		}
 		q.IssuedAmt += sum
 		// C03 / C02 monitors
-		if q.Issued > q.Payments {
-			s.c.MonitorFail("C03", fmt.Sprintf("C03/issued-more-than-paid/issuance-%d-payments-%d", q.Issued, q.Payments),
-				fmt.Sprintf("mint quote issued %d times for %d payment(s) (amount %d, issued total %d)", q.Issued, q.Payments, q.Amount, q.IssuedAmt), s.replay())
+		if s.conc == nil {
+			s.checkIssued(q)
 		}
 		if sum > q.Amount {
 			s.c.MonitorFail("C02", "C02/mint/outputs-over-quote", fmt.Sprintf("issued %d for a quote of %d", sum, q.Amount), s.replay())
@@ -755,6 +805,15 @@ func (s *Seq) OpMint(q *HMintQ, outs []ReqOut, sigMode int) cashu.BlindedSignatu
 	}
 	s.afterOp()
 	return sigs
+}
+
+// checkIssued: C03 monitor — a quote is issued at most as often as it was paid.  Under a schedule the comparison is
+// made once all threads have finished (a concurrent internal settlement counts its payment when it returns).
+func (s *Seq) checkIssued(q *HMintQ) {
+	if q.Issued > q.Payments {
+		s.c.MonitorFail("C03", fmt.Sprintf("C03/issued-more-than-paid/issuance-%d-payments-%d", q.Issued, q.Payments),
+			fmt.Sprintf("mint quote issued %d times for %d payment(s) (amount %d, issued total %d)", q.Issued, q.Payments, q.Amount, q.IssuedAmt), s.replay())
+	}
 }
 
 func (s *Seq) recordSigs(outs []ReqOut, sigs cashu.BlindedSignatures, op string) {
@@ -983,6 +1042,11 @@ func expectAfterPay(calls []LnCall, inMelt bool, cur string) string {
 }
 
 func (s *Seq) OpMelt(q *HMeltQ, ps []ReqProof, script []string) string {
+	return s.OpMeltLn(q, ps, script, false)
+}
+
+// OpMeltLn: lnFail makes the next InvoiceStatus call of the backend fail (only the internal-settlement path calls it).
+func (s *Seq) OpMeltLn(q *HMeltQ, ps []ReqProof, script []string, lnFail bool) string {
 	req := nut05.PostMeltBolt11Request{Quote: q.Id}
 	for _, p := range ps {
 		req.Inputs = append(req.Inputs, p.P)
@@ -991,7 +1055,7 @@ func (s *Seq) OpMelt(q *HMeltQ, ps []ReqProof, script []string) string {
 	for i, a := range script {
 		sc[i] = A(a)
 	}
-	line := L(A("mint.melt"), I(q.Sym), s.sxProofs(ps), Ls(sc))
+	line := L(A("mint.melt"), I(q.Sym), s.sxProofs(ps), Ls(sc), B(lnFail))
 	before := s.snap()
 	state := ""
 	// which mint quote would be settled internally
@@ -1002,7 +1066,15 @@ func (s *Seq) OpMelt(q *HMeltQ, ps []ReqProof, script []string) string {
 		}
 	}
 	res := s.runOp("melt", line, script, func() Sx {
+		if lnFail {
+			s.env.LN.mu.Lock()
+			s.env.LN.failNext["InvoiceStatus"] = 1
+			s.env.LN.mu.Unlock()
+		}
 		mq, err := s.env.M.MeltTokens(context.Background(), req)
+		s.env.LN.mu.Lock()
+		s.env.LN.failNext["InvoiceStatus"] = 0
+		s.env.LN.mu.Unlock()
 		if err != nil {
 			return canonErr(err)
 		}
@@ -1033,7 +1105,7 @@ func (s *Seq) OpMelt(q *HMeltQ, ps []ReqProof, script []string) string {
 			}
 		}
 	}
-	if isErr(res.out) && !attempted {
+	if isErr(res.out) && !attempted && s.conc == nil {
 		// errors after a payment attempt are storage faults (not generated here)
 		after := s.snap()
 		allow := map[string]bool{}
@@ -1443,7 +1515,13 @@ func (s *Seq) checkKeysets(before ksView, rotated bool, fee uint) {
 
 // afterOp: global monitors evaluated on the state after every operation.
 func (s *Seq) afterOp() {
+	if s.conc != nil {
+		return // checked once the schedule is over
+	}
 	sn := s.snap()
+	for _, q := range s.mintQs {
+		s.checkIssued(q)
+	}
 	// C01: spent forever; consumed secrets are in the spent table, locked ones in pending
 	for _, hp := range s.proofs {
 		y := YOf(hp.P.Secret)
